@@ -82,7 +82,10 @@ def stack_case(ctx, specs, keys='default', form='list', align=False, sort=False,
         if ks is not None:
             kw['keys'] = list(ks)
         expkeys = ks if ks is not None else list(range(n))
+    given = list(arg) if isinstance(arg, list) else None
     r = ctx.call(lambda: ctx.da.stack(arg, **kw))
+    if given is not None and not (len(arg) == len(given) and all(x is y for x, y in zip(arg, given))):
+        return ctx.done(False, 'the list of inputs was modified')
     dims0 = list(refs[0].dims)
     sameorder = all(list(ref.dims) == dims0 for ref in refs)
     sameset = all(sorted(ref.dims) == sorted(dims0) for ref in refs)
@@ -153,7 +156,10 @@ def concat_case(ctx, specs, axis, by='name', align=False, sort=False, share=None
         kw['align'] = True
     if sort:
         kw['sort'] = True
-    r = ctx.call(lambda: ctx.da.concatenate(list(arrs), **kw))
+    given = list(arrs)
+    r = ctx.call(lambda: ctx.da.concatenate(given, **kw))
+    if not (len(given) == len(arrs) and all(x is y for x, y in zip(given, arrs))):
+        return ctx.done(False, 'the list of inputs was modified')
     sameorder = all(list(ref.dims) == dims0 for ref in refs)
     others = [d for d in dims0 if d != cdim]
     equal = True
